@@ -803,6 +803,13 @@ func (e *specEnv) lookup(name string) Val {
 			return v
 		}
 	}
+	// package-level variables of the contract's package
+	if pk, ok := e.u.eng.PkgByPath[e.pkgPath]; ok && pk.Types != nil {
+		if o, ok := pk.Types.Scope().Lookup(name).(*types.Var); ok {
+			key := e.u.keyGlobal(pk.Name+"."+o.Name(), o.Type())
+			return Val{t: e.st.get(e.u, key), typ: o.Type()}
+		}
+	}
 	sfail("unknown identifier %s", name)
 	return Val{}
 }
@@ -866,6 +873,17 @@ func (fr *frame) lookupName(name string, at *ssa.BasicBlock, inclusive bool, phi
 			return Val{t: fr.u.loadPtr(p, st), typ: v.Type().Underlying().(*types.Pointer).Elem()}, true
 		}
 		return val, true
+	}
+	// captured variables of a closure live in the enclosing function's cell: read the cell in the
+	// requested state (value bindings would ignore old())
+	for i, fv := range fr.fn.FreeVars {
+		if fv.Name() == name {
+			v := fr.vals[fr.fn.FreeVars[i]]
+			if v.ptr != nil || v.t != "" {
+				p := fr.asPtr(v, fv.Type())
+				return Val{t: fr.u.loadPtr(p, st), typ: fv.Type().Underlying().(*types.Pointer).Elem()}, true
+			}
+		}
 	}
 	// variables that live in a cell (address taken / captured by a closure): read the cell
 	if at != nil {
